@@ -182,6 +182,12 @@ fn programs(c: &Caps, mem: &str, n: u64) -> Vec<(&'static str, String, Option<u6
             if n >= 1 {
                 v.push(("byte", format!("{}.dseg\n.byte {}\n", dev, n), Some(n)));
                 v.push(("position-only:org+label", format!("{}.dseg\n.org {}\nstack_top_l:\n.cseg\nnop\n", dev, c.ram_start + n), None));
+                // beyond the capacity first, then back to the start: whatever a backwards .org means,
+                // the reservation that does not fit fails the build
+                if n > c.ram {
+                    v.push(("byte-then-org-back-to-the-start", format!("{}.dseg\nbig_v: .byte {}\n.org {}\nsmall_v: .byte 1\n", dev, n, c.ram_start), None));
+                    v.push(("byte-then-org-back-in-a-new-dseg", format!("{}.dseg\nbig_v: .byte {}\n.cseg\nnop\n.dseg\n.org {}\nsmall_v: .byte 2\n", dev, n, c.ram_start + 1), None));
+                }
                 v.push(("org+byte", format!("{}.dseg\n.org {}\n.byte 1\n", dev, c.ram_start + n - 1), Some(n)));
             } else {
                 v.push(("empty", format!("{}.dseg\nv:\n", dev), Some(0)));
@@ -347,6 +353,14 @@ pub fn run(tier: Tier) -> i32 {
     }
     for d in devs.iter() {
         extra.push(("second-device".into(), format!(".device {}\n.device {}\n", d.name, d.name)));
+    }
+    // two different parts whose table rows are identical are still two devices
+    for a in devs.iter() {
+        for b in devs.iter() {
+            if a.name != b.name && (a.flash_words, a.eeprom_size, a.ram_size, a.ram_start, &a.flags) == (b.flash_words, b.eeprom_size, b.ram_size, b.ram_start, &b.flags) {
+                extra.push(("second-device".into(), format!(".device {}\nnop\n.device {}\n", a.name, b.name)));
+            }
+        }
     }
     for (kind, src) in extra.iter() {
         let o = sut::build_str(src);
